@@ -24,12 +24,12 @@ CHECKS = {
         text="12 dependency forms (&impl, `(&impl)` in parentheses, unused `_: &impl`, &D inline / declared after the const parameters / where-bound / bound by a `for<>` where-predicate, by-value generic / impl, concrete by reference and by value, no_deps) x every "
              "extra-parameter word <= 1 (quick) / <= 2 (thorough) over 22 symbols {i64, &X elided, &'b X named, T: Bound inline, U where-bound, [u8; N] with const N, impl "
              "Trait, &dyn, fn pointer, impl Fn, Box<dyn>, slice, tuple, where-predicates naming 'static / for<> before a fn lifetime or a fn lifetime inside the arguments of a trait bound, outlives-related lifetimes, "
-             "destructuring / mut / wildcard patterns, `&mut`} x container {single fn, one of two fns of a module, next to a twin fn with the same generic parameter names, macro_rules-stamped with the dependency type as a `$d:ty` fragment} x qualifiers {none, async, unsafe, extern \"C\", unsafe extern \"C\", async unsafe} x 10 return kinds (unit, owned, borrowed from deps elided / named, "
-             "borrowed from an argument named / elided, generic T, Result, Option<&'a>, impl Trait) x options {none, mock_api, mockall, ?Send} x both features (~23k states "
+             "destructuring / mut / wildcard patterns, `&mut`} x container {single fn, one of two fns of a module, next to a twin fn with the same generic parameter names, macro_rules-stamped with the dependency type as a `$d:ty` fragment} x qualifiers {none, async, unsafe, extern \"C\", unsafe extern \"C\", async unsafe} x 11 return kinds (unit, owned, borrowed from deps elided / named, "
+             "borrowed from an argument named / elided / elided next to a named parameter lifetime, generic T, Result, Option<&'a>, impl Trait) x options {none, mock_api, mockall, ?Send} x both features (~23k states "
              "in quick). Each state is compiled to a fixpoint (every rustc error attributed to its state, borrowck included) and run; for sync fns the function "
              "and the trait method must both coerce to the one most-general fn-pointer type written by the generator (higher-ranked lifetimes, unsafe / extern "
              "qualifiers), for async fns the Output is ascribed; scope witnesses check that a return borrowed from deps does not depend on the arguments and "
-             "vice versa; the direct and the trait call must return the model's value. Six further programs: type / const parameters that only the body uses; a `&'static` reference to a concrete dependency.",
+             "vice versa; the direct and the trait call must return the model's value. 10 further programs: type / const parameters that only the body uses, declared const-before-type, or in different orders by the fns of a module; nested and named-lifetime elision under `no_deps`; a `&'static` reference to a concrete dependency; receiver identity for a mockable trait with a named dependency parameter.",
         note=NOTE, technique="bounded-exhaustive enumeration of signatures on the real macro; fixpoint compilation + fn-pointer coercion witnesses + executed client",
         ref="DESIGN.md §3 C03"),
     "C04": dict(
@@ -62,9 +62,9 @@ CHECKS = {
         technique="bounded-exhaustive enumeration of trait definitions on the real macro; executed trace + runtime availability truth table vs model",
         ref="DESIGN.md §3 C06"),
     "C07": dict(
-        text="Every method word of length <= 2 (quick) / <= 3 (thorough) over 15 shapes (0-2 same-typed arguments, &str, named lifetimes with and without "
-             "the lifetime on the receiver, return borrowed from deps (plain and with a nested elided lifetime), typed receiver `self: &Self`, provided method with Self: Sized, macro_rules-stamped hygiene shape, four async shapes) x {static `delegate_by = Sel`, dynamic `delegate_by = ref` "
-             "(+ async_trait when async)} x 8 assignments of further dependency bounds to the block's fns (0/1/2 bounds, increasing, decreasing, disjoint, two instantiations of one generic trait), "
+        text="Every method word of length <= 2 (quick) / <= 3 (thorough) over 17 shapes (0-2 same-typed arguments, &str, named lifetimes with and without "
+             "the lifetime on the receiver, return borrowed from deps (plain and with a nested elided lifetime), typed receiver `self: &Self`, provided method with Self: Sized, macro_rules-stamped hygiene shape, five async shapes incl. one without return value) x {static `delegate_by = Sel`, dynamic `delegate_by = ref` "
+             "(+ async_trait when async)} x 9 assignments of further dependency bounds to the block's fns (0/1/2 bounds, increasing, decreasing, disjoint, two instantiations of one generic trait, two different traits with the same last path segment), "
              "with two competing target types X1/X2 of identical method names selected by AppA/AppB: every call must produce exactly one event, from the "
              "selected target's function of that name, whose deps argument is the caller's &Impl<App> (address + type), arguments in order, result unchanged; "
              "the block's functions call further (non-blanket) dependencies through deps. Short words are repeated with the impl blocks stamped out by macro_rules (target type as `$t:ty` fragment) next to decoy free functions named like the methods.",
@@ -129,7 +129,7 @@ CHECKS = {
         ref="DESIGN.md §3 C13"),
     "C14": dict(
         text="Bottom-level input mode {fn, mod, entraited trait, trait + static impl block} x sync/async x call-chain depth 1..3 (1..5 thorough) x arity "
-             "0..2 x {elided, named lifetime, two lifetimes with an outlives bound, generic async method, provided method mentioning its own name, method taking `self` by value, mockall + return-position `impl Trait`, `&mut` parameters, explicit `delegate_by = Self`, provided async method awaiting a sibling, outlives relation in a where clause}: level i of the chain allocates exactly i boxes, the client counts heap allocations "
+             "0..2 x {elided, named lifetime, two lifetimes with an outlives bound, generic async method, provided method mentioning its own name, method taking `self` by value, mockall + return-position `impl Trait`, `&mut` parameters, explicit `delegate_by = Self`, provided async method awaiting a sibling, outlives relation in a where clause, `no_deps` + `impl Trait` return}: level i of the chain allocates exactly i boxes, the client counts heap allocations "
              "(counting global allocator, allocation-free executor) around the direct call and around the call through the generated trait; both must "
              "equal d(d+1)/2 and give the same result; the generated part of every recorded expansion must not mention dyn / Box / Pin / async_trait.",
         note=NOTE + " Debug build: Box::new allocates exactly once.",
